@@ -486,6 +486,9 @@ class DatasetProcessor:
         logger.info("Processing experiment " + sample.prefix)
         logger.info("Experiment has " + proper_plural_form("BAM file", len(sample.file_list)) + ": " + ", ".join(
             map(lambda x: x[0], sample.file_list)))
+        if getattr(self.args, "read_group_by_number_of_files", False):
+            # implicit grouping concerns this experiment only: one with a single file gets what it gets when it is run alone
+            self.args.read_group = "file_name" if len(sample.file_list) > 1 else None
         self.args.use_technical_replicas = self.args.read_group == "file_name" and len(sample.file_list) > 1
 
         self.all_read_groups = set()
